@@ -457,6 +457,24 @@ impl VLogReader {
 }
 
 // ------------------------------------------------------------------------------------------------
+// Children of a database iterator built for verification (DB::verif_iterator_over)
+// ------------------------------------------------------------------------------------------------
+
+/// An internal key as (user key, sequence number, operation code).
+pub type RawKey = (Vec<u8>, u64, u8);
+
+/// One child of a database iterator.
+pub enum ChildSpec {
+    /// A memtable holding these entries.
+    Mem(Vec<RawEntry>),
+    /// One table file, iterated the way level 0 files are.
+    Table(u64),
+    /// Table files (number, size, smallest key, largest key) with disjoint ascending ranges,
+    /// iterated the way the files of a level >= 1 are.
+    Level(Vec<(u64, u64, RawKey, RawKey)>),
+}
+
+// ------------------------------------------------------------------------------------------------
 // Table wrappers
 // ------------------------------------------------------------------------------------------------
 
